@@ -501,6 +501,12 @@ func (ev *symEval) load(fr *symFrame, st *symState, addr SV, t types.Type) SV {
 	if _, isStruct := t.Underlying().(*types.Struct); isStruct {
 		return SV{K: "struct", Desc: strings.TrimPrefix(d, "&")}
 	}
+	if strings.HasPrefix(d, "global:") && typeStr(t) == "error" {
+		// a package-level error variable (context.Canceled, io.EOF, ErrX of the module): a sentinel, never nil
+		if nm := d[strings.LastIndex(d, ".")+1:]; !strings.HasPrefix(d, "global:"+"layer4.") && !strings.HasPrefix(d, "global:modules/") || strings.HasPrefix(nm, "Err") || strings.HasPrefix(nm, "err") {
+			return SV{K: "ref", Known: true, Desc: d}
+		}
+	}
 	return defaultFor(t, strings.TrimPrefix(d, "&"))
 }
 
@@ -898,6 +904,28 @@ func (ev *symEval) doCall(fr *symFrame, st *symState, x *ssa.Call) ([]outcome, b
 				return nil, true
 			}
 			return outs, true
+		}
+	}
+	if (id == "slices.Contains" || id == "slices.Index" || strings.HasPrefix(id, "slices.Contains[") || strings.HasPrefix(id, "slices.Index[")) && len(args) == 2 && args[0].Len != nil && args[0].Len.Known && args[0].Len.N <= 64 &&
+		args[1].Known && (args[1].K == "str" || args[1].K == "int") {
+		// the library loop on a list whose elements are all known: the first position of the value
+		idx, all := int64(-1), true
+		for i := int64(0); i < args[0].Len.N; i++ {
+			e, ok := lookupElem(st, args[0].Desc, i)
+			if !ok || e.K != args[1].K || !e.Known {
+				all = false
+				break
+			}
+			if idx < 0 && (e.K == "str" && e.S == args[1].S || e.K == "int" && e.N == args[1].N) {
+				idx = i
+			}
+		}
+		if all {
+			st.trace = append(st.trace, ev.callEvent(fr, "call", x))
+			if strings.HasPrefix(id, "slices.Contains") {
+				return []outcome{{st: st, ret: []SV{symBool(idx >= 0)}, kind: "return"}}, true
+			}
+			return []outcome{{st: st, ret: []SV{symInt(idx)}, kind: "return"}}, true
 		}
 	}
 	if (strings.HasPrefix(id, "slices.ContainsFunc") || strings.HasPrefix(id, "slices.IndexFunc")) && len(args) == 2 && args[0].Len != nil && args[0].Len.Known && args[0].Len.N <= 8 && args[1].Fn != nil && len(args[1].Fn.Blocks) > 0 && fr.depth < 6 {
